@@ -94,13 +94,12 @@ pub trait AggValidFinal<T: IsNone>: Vec1View<T> {
             let corr: f64 = self
                 .titer()
                 .vcorr_pearson(self.titer().vshift(life as i32, None), min_periods);
-            if corr < 0.5 {
-                (last_n, n) = (last_n, life);
-            } else if corr > 0.5 {
-                (last_n, n) = (life, last_n);
+            // invariant: the autocorrelation is above 0.5 at last_n and not above it at n
+            // (a NaN correlation - too few pairs - is not above 0.5 either)
+            if corr > 0.5 {
+                last_n = life;
             } else {
                 n = life;
-                break;
             }
         }
         n
